@@ -156,6 +156,7 @@ def execute(cases, workdir):
         r['impl_nodes'] = [parse_kv(l) for l in inodes if l.startswith('NODE ')]
         r['impl_edges'] = iedges
         r['census'] = [parse_kv(l) for l in ml if l.startswith('ENT ')]
+        r['decoded'] = [parse_kv(l) for l in ml if l.startswith('DEC ')]
         if mo[1] != io[1]:
             dis.append((cid, 'outcome', 'model=%s(%s) impl=%s' % (mo[1], r['panic_site'], io[1])))
         elif mnodes != inodes or medges != iedges:
